@@ -510,7 +510,7 @@ impl Check for C10 {
         tier.pick(std::time::Duration::from_secs(200), std::time::Duration::from_secs(1500))
     }
     fn required_counters(&self, _tier: Tier) -> Vec<&'static str> {
-        vec!["capacity-decisions-judged", "evictions", "refusals", "quotes-judged", "restarts", "large-cleanups", "bursts", "identical-reputs-at-capacity", "realnet:quotes-judged:running", "realnet:quotes-judged:restarted"]
+        vec!["capacity-decisions-judged", "evictions", "refusals", "quotes-judged", "restarts", "large-cleanups", "bursts", "identical-reputs-at-capacity"]
     }
     fn lane_cases(&self, tier: Tier) -> u64 {
         tier.pick(6, 48)
